@@ -521,7 +521,11 @@ impl fmt::Display for MatrixUri {
 
         if let Some(action) = self.action() {
             f.write_str(if first { "?action=" } else { "&action=" })?;
-            f.write_str(action.as_str())?;
+            // Custom actions are arbitrary strings, they need to be encoded like any other value
+            // of the query.
+            for part in form_urlencoded::byte_serialize(action.as_str().as_bytes()) {
+                f.write_str(part)?;
+            }
         }
 
         Ok(())
